@@ -8,10 +8,13 @@ from .common import evaluate, history_problem
 ID = 'C01'
 LEVEL = 'exploration'
 TIERS = {
-    'quick': {'cases': 1400, 'wall': 75, 'chunk': 10},
-    'thorough': {'cases': 40000, 'wall': 1200, 'chunk': 20},
+    'quick': {'cases': 576 + 1400, 'wall': 85, 'chunk': 10},
+    'thorough': {'cases': 576 + 40000, 'wall': 1200, 'chunk': 20},
 }
-RULE = ('case i: Random(f"{seed}:C01:{i}") picks a swarm configuration (feature subset, sizes, word '
+RULE = ('cases 0..575: the ELEMENT-STORE MATRIX (seed independent): element type x storage class {literal, stack literal, '
+        'dynamic, global literal, global dynamic, parameter} x length {1,8,9,17} x right-hand side {literal, variable} x '
+        'index {literal, variable, expression}; every second element and the last two are stored to, some compound-'
+        'assigned, then all are read back. Further cases: Random(f"{seed}:C01:{i}") picks a swarm configuration (feature subset, sizes, word '
         'size in {2,3,4,8}) and generates a well-typed HiD program without try/preempt/?? plus an '
         'argument vector; the program is rendered with a seeded layout, compiled by the real hidc, '
         'run on the SVM (generous stack; for every 3rd case also at the measured minimal stack; '
@@ -44,7 +47,108 @@ def problems_of(prog, argv, cfgs):
     return out, evs
 
 
+# ---- element-store matrix (seed independent): every element type x storage class x length x index form x
+# right-hand-side form; every second element (and the last two) is stored to, some are compound-assigned, then
+# everything is read back - special-cased lowerings (constant index, literal value, bit masks beyond the first byte)
+# show up as a wrong or clobbered neighbour
+EL_JOBS = [(el, st, L, rhs, ix) for el in ('int', 'byte', 'bool', 'string')
+           for st in ('literal', 'stack_literal', 'dynamic', 'gliteral', 'gdynamic', 'param')
+           for L in (1, 8, 9, 17) for rhs in ('lit', 'var') for ix in ('lit', 'var', 'expr')]
+
+
+def el_value(el, k, alt=False):
+    from ..build import I, C, B, S
+    if el == 'int':
+        return I(1000 + 7 * k + (500 if alt else 0))
+    if el == 'byte':
+        return C(chr((65 + k + (32 if alt else 0)) % 256))
+    if el == 'bool':
+        return B((k % 3 == 0) != alt)
+    return S(f's{k}' + ('x' if alt else ''))
+
+
+def el_prog(job):
+    from ..build import (I, V, call, ex, write, decl, dyn, setv, aug, for_up, bin_, idx as ix_, ln, func, prog as mkprog,
+                         dump_func)
+    from ..lang import arr
+    el, st, L, rhs, ixf = job
+    init = ('arr', tuple(el_value(el, k) for k in range(L)))
+    glob, pre = [], []
+    name = 'a'
+    if st == 'literal':
+        pre.append(decl(arr(el), 'a', init, True))
+    elif st == 'stack_literal':
+        # one run-time element keeps the literal on the stack
+        items = list(init[1])
+        items[L // 2] = {'int': bin_('+', V('q'), I(1000 + 7 * (L // 2) - 3)), 'byte': ('is', bin_('+', V('q'), I(62 + L // 2)), 'byte'),
+                         'bool': bin_('==', V('q'), I(3 if (L // 2) % 3 == 0 else 4)), 'string': V('qs')}[el]
+        if el == 'string':
+            pre.append(decl('string', 'qs', el_value(el, L // 2)))
+        pre.append(decl(arr(el), 'a', ('arr', tuple(items)), True))
+    elif st == 'dynamic':
+        pre += [dyn(el, 'a', bin_('+', V('q'), I(L - 3))), for_up('i', I(0), ln('a'), setv(ix_('a', V('i')), el_value(el, 0)))]
+    elif st == 'gliteral':
+        glob.append(decl(arr(el), 'a', init, True))
+    elif st == 'gdynamic':
+        glob.append(dyn(el, 'a', I(L)))
+        pre.append(for_up('i', I(0), ln('a'), setv(ix_('a', V('i')), el_value(el, 0))))
+    else:
+        pre.append(decl(arr(el), 'a0', init, True))
+    stores = []
+    for k in range(L):
+        if not (k % 2 == 0 or k >= L - 2):
+            continue
+        v = el_value(el, k, alt=True)
+        if rhs == 'var':
+            stores.append(decl(el, f'v{k}', v))
+            v = V(f'v{k}')
+        if ixf == 'lit':
+            i_e = I(k)
+        elif ixf == 'var':
+            stores.append(decl('int', f'k{k}', I(k)))
+            i_e = V(f'k{k}')
+        else:
+            i_e = bin_('-', bin_('+', V('q'), I(k)), I(3))
+        stores.append(setv(ix_('a', i_e), v))
+        if el in ('int', 'byte') and k % 3 == 0:
+            stores.append(aug('+', ix_('a', i_e), I(2) if rhs == 'lit' else V('two')))
+    if rhs == 'var':
+        stores.insert(0, decl('byte' if el == 'byte' else 'int', 'two', I(2)))
+    tail = [ex(call('dump', V('a')))]
+    fs = [dump_func(el)]
+    if st == 'param':
+        fs.append(func('empty', 'touch', [(arr(el), 'a'), ('int', 'q')], *stores, *tail))
+        body = pre + [ex(call('touch', V('a0'), V('q'))), ex(call('dump', V('a0')))]
+    else:
+        body = pre + stores + tail
+    return mkprog(glob, fs + [func('empty', '@is_you', [('int', 'q')], *body)]), ['3']
+
+
+def el_case(idx):
+    job = EL_JOBS[idx]
+    p, argv = el_prog(job)
+    W = (2, 3, 4, 8)[idx % 4]
+    base = dict(W=W, stack=common.GENEROUS, style_seed=None, poison_seed=idx + 1)
+    found, evs = problems_of(p, argv, [base])
+    ev = evs[0]
+    res = {'key': digest('el', *map(str, job)), 'nontrivial': ev.res is not None, 'violations': [],
+           'counters': common.run_counters(ev), 'outcomes': {}, 'faults_fired': {'poison': 1},
+           'probes': dict(ev.res.probes) if ev.res is not None else {}, 'max': {}}
+    res['counters']['element_matrix'] = 1
+    res['outcomes'][f'ref:{ev.ref.outcome}'] = 1
+    res['digest'] = digest(res['key'], ev.res.history if ev.res is not None else None, [f[:2] for f in found])
+    if found:
+        cls, detail, bad = found[0]
+        res['violations'].append({'cls': cls, 'detail': f'element matrix {job}: {detail}', 'fingerprint': None,
+                                  'payload': common.payload(p, argv, bad, {'element_job': list(job)}),
+                                  'sample': common.sample_of(p, argv, bad)})
+    return res
+
+
 def case(seed, idx, tier):
+    if idx < len(EL_JOBS):
+        return el_case(idx)
+    idx -= len(EL_JOBS)
     rnd = case_rng(seed, ID, idx)
     cfg = gen.swarm_cfg(rnd)
     prog, argv = gen.gen_program(rnd, cfg)
